@@ -61,6 +61,8 @@ fixed = [
       what="fixed: property=C02 4d7848e K/D/T/S4/S5 (and the many-valued modal logics) reported 'La, Mb, Mc, M((d & Lb1) & Mc1) |- e' invalid with an unsaturated open branch whose model is not a countermodel: the box rule only served least-applied-to nodes, and once the least-applied one had no world left the others were never taken up again"),
  dict(property='C14', status='fixed', commit='02adc18', key='C14.R3/readonly/Operated: re-assigning an attribute with an equal but different object',
       what="fixed: property=C14 02adc18 (~A).operator = 'Negation' was accepted and put a str in place of the operator (Atomic(0,0).index = 0.0 a float in place of the index): a finished item stored any value that compared equal to the current one"),
+ dict(property='C14', status='fixed', commit='0ef2104', key='C14.R1/compare_ops/hashitem across processes',
+      what="fixed: property=C14 0ef2104 an Atomic (any lexical item or Argument) pickled in one process could not be unpickled in another (AttributeError: '_hash' is read-only): the cached hash was hash((Lexical, sort_tuple)), and a class object hashes by its address"),
 ]
 CLASSICAL = ('CPL', 'CFOL', 'K', 'D', 'T', 'S4', 'S5')
 def triage(prop, f):
@@ -80,6 +82,11 @@ def triage(prop, f):
         return ('F18: ' + k.split('/', 2)[2] + ': a coordinate that merely equals an int (1.0, 1+0j: same hash) is refused with TypeError on a cold cache '
                 'but rides on the cached int spec when that one was constructed before -- e.g. Constant(2.0, 57) raises, after Constant(2, 57) it returns the constant; '
                 'not repaired: the lookup sits on the hot construction path and the inputs are non-canonical')
+    if prop == 'C14' and k.startswith('C14.R3/readonly/') and k.endswith(': planting a lazily computed attribute'):
+        cls = k.split('/')[2].split(':')[0]
+        return (f'F21: {cls}: a lazily computed derived attribute can be planted before its first read -- e.g. s = A & B; s._atomics = frozenset(); s.atomics is then empty '
+                '(the guarded __setattr__ lets any first assignment through because constructors and the lazy getter use it too); not repaired: refusing private first '
+                'assignments breaks unpickling, which restores the slots through setattr')
     return None
 out = list(fixed); refused = []
 for p in PROPS:
